@@ -154,6 +154,48 @@ func rulePanic2(c *Ctx, r *Reporter) {
 		}
 		return false
 	}
+	// ctxRegistry: the registry whose operators (alone) run fn with their own Context: fn is a registered operator,
+	// or an unexported function all of whose callers are such functions of one registry and hand it their own ctx
+	var ctxRegistry func(fn *ssa.Function, depth int) string
+	ctxRegistry = func(fn *ssa.Function, depth int) string {
+		for name, reg := range regs {
+			for _, f := range reg {
+				if f == outermost(fn) {
+					return name
+				}
+			}
+		}
+		if depth > 2 || fn.Parent() != nil {
+			return ""
+		}
+		callers, ok := allCallers(fn)
+		if !ok || len(callers) == 0 {
+			return ""
+		}
+		ctxIdx := -1
+		for i, p := range fn.Params {
+			if n := derefNamed(p.Type()); n != nil && n.Obj().Name() == "Context" && n.Obj().Pkg().Path() == pkgMongokit {
+				ctxIdx = i
+			}
+		}
+		if ctxIdx < 0 {
+			return ""
+		}
+		name := ""
+		for _, ci := range callers {
+			g := ci.Parent()
+			arg, isParam := ci.Common().Args[ctxIdx].(*ssa.Parameter)
+			if !isParam || arg.Parent() != g {
+				return ""
+			}
+			rn := ctxRegistry(g, depth+1)
+			if rn == "" || (name != "" && rn != name) {
+				return ""
+			}
+			name = rn
+		}
+		return name
+	}
 	useTxn := c.lookupFunc(pkgLungo, "useTransaction")
 	counts := map[string]int{}
 	total := 0
@@ -211,7 +253,7 @@ func rulePanic2(c *Ctx, r *Reporter) {
 				})
 			}
 			// (c) ctx.Value in a registered operator (TAB-2 checks the type)
-			if !okk && valueF != nil && inRegistry(fn) {
+			if !okk && valueF != nil && (inRegistry(fn) || ctxRegistry(fn, 0) != "") {
 				src := ta.X
 				isValue := false
 				switch x := src.(type) {
